@@ -5,6 +5,7 @@ package main
 // conditions, if-then-else.
 
 import (
+	"go/types"
 	"math/big"
 	"sort"
 	"strings"
@@ -14,6 +15,25 @@ import (
 var intFns = map[string]bool{"math.Floor": true, "math.Ceil": true, "math.Trunc": true, "math.Round": true,
 	"len": true, "cap": true, "idiv": true, "imod": true, "toint": true, "math.Modf#0": true,
 	"math/bits.TrailingZeros32": true, "shl": true, "shr": true, "and": true, "or": true, "andnot": true, "xor": true}
+
+// noteStruct records the field names of a struct type (for the eta rule on mk:T).
+func (s *Sym) noteStruct(tn string, t types.Type) {
+	if s.structFields == nil {
+		s.structFields = map[string][]string{}
+	}
+	if _, ok := s.structFields[tn]; ok {
+		return
+	}
+	st, ok := t.Underlying().(*types.Struct)
+	if !ok {
+		return
+	}
+	names := make([]string, st.NumFields())
+	for i := range names {
+		names[i] = st.Field(i).Name()
+	}
+	s.structFields[tn] = names
+}
 
 func (s *Sym) atomIntegral(at *Atom) bool {
 	if at.Int {
@@ -140,6 +160,26 @@ func (s *Sym) MakeFn(name string, args ...*RF) *RF {
 		}
 	case "not":
 		return s.Not(args[0])
+	default:
+		// a struct rebuilt from all the projections of one value is that value
+		if strings.HasPrefix(name, "mk:") && len(args) > 0 {
+			tn := name[3:]
+			if names, ok := s.structFields[tn]; ok && len(names) == len(args) {
+				var v *RF
+				all := true
+				for i, a := range args {
+					at := a.SingleAtom()
+					if at == nil || at.Name != "fld:"+tn+"."+names[i] || len(at.Args) != 1 || (v != nil && !v.Equal(at.Args[0])) {
+						all = false
+						break
+					}
+					v = at.Args[0]
+				}
+				if all && v != nil {
+					return v
+				}
+			}
+		}
 	case "land", "lor":
 		return s.nary(name, args)
 	case "cmp==", "cmp!=":
